@@ -51,6 +51,7 @@ fn main() {
         "C12" => props::c12::run(&report, &tier),
         "C13" => props::c13::run(&report, &tier),
         "C17" => props::c17::run(&report, &tier),
+        "C20" => props::c20::run(&report, &tier),
         "C19" => props::c19::run(&report, &tier),
         "C14" => props::c14::run(&report, &tier),
         "C15" => props::c15::run(&report, &tier),
